@@ -369,7 +369,14 @@ Definition step_thread (g : shared) (me : tid) (th : thread) : option (shared * 
   | PWaiting c => Some (g, setpc th (PRecvAwait c))
   | PRecvAwait c => if nth c (g_chans g) false then Some (g, setpc th PRelock) else None
   | PRelock => match g_mu g with
-               | None => Some (set_mu g (Some me), setpc th PLoad)
+               | None =>
+                   (* Lock; awaitRotationLocked loops: if a rotation was queued again meanwhile
+                      (possible only with a second mutating goroutine) Unlock and wait for it.
+                      awaitRotate is only written under writeMu, so Lock + load is one step. *)
+                   match g_await g with
+                   | Some c => Some (g, setpc th (PWaiting c))
+                   | None => Some (set_mu g (Some me), setpc th PLoad)
+                   end
                | Some _ => None
                end
   | PLoad => Some (g, setpc th (PLoaded (g_cur g)))
